@@ -68,7 +68,20 @@ def read_cfg(G):
 class GrammarSem:
     """D[(X, i, j)]: X derives word[i:j]  (least fixpoint, spans by increasing length, |V| rounds per length)"""
 
-    def __init__(self, entries, variables, word):
+    def __init__(self, entries, variables, word, fold=False):
+        """fold=True: while the table is computed the encoder's pruning of unsatisfiable conjunctions stays on
+        (needed for result grammars whose rule guards are strongly correlated); the literals handed out are
+        compared by the caller without folding, so the comparison itself is still the solver's"""
+        d = E.dag
+        saved = d.sim
+        if fold and E.rand.exact:
+            d.sim = E.rand
+        try:
+            self._build(entries, variables, word)
+        finally:
+            d.sim = saved
+
+    def _build(self, entries, variables, word):
         d = E.dag
         self.word = word
         self.vars = list(variables)
